@@ -22,7 +22,7 @@ ObjOk(c, m, o) ==
   IF Scaled(c) THEN m.u.s = "??" \/ (m.u.dim = o.u.dim /\ NumOk(m.u.off, o.u.off) /\ PhysSeqOk(m.n, m.u.sc, o.n, o.u.sc))
   ELSE SeqOk(m.n, o.n) /\ UnitOk(m.u, o.u)
 \* the model does not predict a power whose exponent it cannot read (huge / non-dyadic floats)
-TSkip(s) == \/ s.c.op \in GOps      \* generic copying families: frame only (P1_NoMut), results are not transcribed
+TSkip(s) == \/ s.c.op \in GOps \cup {"gin"}      \* generic copying families: frame only (P1_NoMut), results are not transcribed
             \/ s.c.f = "pow" /\ s.c.y \in Slots /\ \E j \in DOMAIN s.B[s.c.y].n : IsOpq(s.B[s.c.y].n[j])
             \* ... nor the coefficient path of multiply/divide when the out= object's OWN unit is spelled with a cancellable
             \* ratio (lb/la): `multiply(out, mul, out=out)` consults that unit again
@@ -48,7 +48,7 @@ TraceNext ==
   /\ LET s == Steps[i]
          bad == FailedClauses(s.B, s.Af, s.c, s.ex, s.tw) IN
        /\ \A cl \in bad :
-            PrintT(ToJson([tag |-> "P-FAIL", idx |-> i, clause |-> cl, op |-> s.c.op, f |-> s.c.f, offin |-> OffIn(s.B, s.c),
+            PrintT(ToJson([tag |-> "P-FAIL", idx |-> i, clause |-> cl, op |-> s.c.op, f |-> s.c.f, offin |-> OffIn(s.B, s.c), e |-> s.c.e, tint |-> IsInt(s.B[Target(s.c)].dt),
                            changed |-> IF cl = "P1_NoMut" THEN P1_Bad(s.B, s.Af, s.c) ELSE {}]))
        /\ (bad = {} /\ ~TOk(s)) => PrintT(ToJson([tag |-> "T-FAIL", idx |-> i, op |-> s.c.op, model |-> TDetail(s)]))
   /\ i' = i + 1
